@@ -21,6 +21,7 @@ type gField struct {
 	inline bool
 	base   int // 0 default
 	rawTag string
+	path   []int // index path inside gType.t (nil: the field's own position)
 }
 
 func (f *gField) tag() string {
@@ -490,7 +491,7 @@ var lexPrefixes = []string{"$x$", "$1$", "$ab,", "_", "$argon2id$", "$md5,"}
 func genValue(r *rng, gt *gType, wild bool) reflect.Value {
 	p := reflect.New(gt.t)
 	for i, f := range gt.fields {
-		fv := p.Elem().Field(i)
+		fv := gt.at(p.Elem(), i)
 		if f.isPrefix() && fv.Kind() == reflect.String {
 			if wild && r.intn(5) == 0 {
 				fv.SetString(r.str(r.intn(4), "$x,_"))
@@ -515,7 +516,7 @@ func presentable(gt *gType, p reflect.Value) bool {
 			continue
 		}
 		fs = append(fs, f)
-		vs = append(vs, p.Elem().Field(i))
+		vs = append(vs, gt.at(p.Elem(), i))
 	}
 	textOf := func(i int) (string, bool) { // marshalled text and presence
 		v := vs[i]
@@ -584,4 +585,74 @@ func presentable(gt *gType, p reflect.Value) bool {
 		}
 	}
 	return true
+}
+
+// at: the i-th (flattened) field of a value of the generated type
+func (gt *gType) at(v reflect.Value, i int) reflect.Value {
+	if p := gt.fields[i].path; p != nil {
+		return v.FieldByIndex(p)
+	}
+	return v.Field(i)
+}
+
+// nestType: the same fields in the same order, with random runs of consecutive fields moved into embedded
+// (anonymous, by value) structs, nested up to the given depth.  Field names stay unique, so the flattened layout, and
+// with it every string and value the codec produces, is that of the flat type.
+func nestType(r *rng, gt *gType, maxDepth int) (out *gType, ok bool) {
+	defer func() {
+		if recover() != nil {
+			out, ok = nil, false
+		}
+	}()
+	fs := make([]*gField, len(gt.fields))
+	for i, f := range gt.fields {
+		c := *f
+		fs[i] = &c
+	}
+	counter := 0
+	deepest := 0
+	var mk func(lo, hi, depth int, prefix []int) reflect.Type
+	mk = func(lo, hi, depth int, prefix []int) reflect.Type {
+		if depth > deepest {
+			deepest = depth
+		}
+		var sfs []reflect.StructField
+		i := lo
+		for i < hi {
+			pos := len(sfs)
+			path := append(append([]int(nil), prefix...), pos)
+			// an embedded run [i, j): always one on the way down to maxDepth through the first field, random otherwise
+			wrap := depth < maxDepth && !fs[i].isPrefix() && (i == lo && depth < maxDepth || r.intn(3) == 0)
+			if wrap {
+				j := i + 1 + r.intn(hi-i)
+				for k := i; k < j; k++ {
+					if fs[k].isPrefix() {
+						j = k
+						break
+					}
+				}
+				if j > i {
+					counter++
+					st := mk(i, j, depth+1, path)
+					sfs = append(sfs, reflect.StructField{Name: fmt.Sprintf("E%d", counter), Type: st, Anonymous: true})
+					i = j
+					continue
+				}
+			}
+			f := fs[i]
+			f.path = path
+			tg := reflect.StructTag("")
+			if t := f.tag(); t != "" {
+				tg = reflect.StructTag(`hash:"` + t + `"`)
+			}
+			sfs = append(sfs, reflect.StructField{Name: f.name, Type: f.typ, Tag: tg})
+			i++
+		}
+		return reflect.StructOf(sfs)
+	}
+	t := mk(0, len(fs), 0, nil)
+	if deepest == 0 {
+		return nil, false
+	}
+	return &gType{fs, t}, true
 }
